@@ -28,13 +28,14 @@ class ServletScn(Scenario):
                'mpservice.streamer._streamer', 'mpservice.mpserver._worker', 'mpservice.mpserver._servlet',
                'mpservice.mpserver._server']
 
-    def __init__(self, stages=(2,), init_fail=True, work_fail=False, pre_fail=False, callers=1, capacity=2, cycles=1, batch_size=0):
+    def __init__(self, stages=(2,), init_fail=True, work_fail=False, pre_fail=False, callers=1, capacity=2, cycles=1, batch_size=0, validate_all=False):
         """stages: number of worker threads of each ThreadServlet in a SequentialServlet (one stage: plain ThreadServlet)."""
         self.stages, self.init_fail, self.work_fail, self.pre_fail = tuple(stages), init_fail, work_fail, pre_fail
         self.callers, self.capacity, self.cycles = callers, capacity, cycles
         self.batch_size = batch_size
+        self.validate_all = validate_all  # every later stage has a (never failing) validating preprocess
         self.params = dict(stages=list(stages), init_fail=init_fail, work_fail=work_fail, pre_fail=pre_fail,
-                           callers=callers, capacity=capacity, cycles=cycles, batch_size=batch_size)
+                           callers=callers, capacity=capacity, cycles=cycles, batch_size=batch_size, validate_all=validate_all)
         self.caps = {'queue': callers + sum(stages) + 3, 'deque': callers + 3}
 
     def extra_patches(self):
@@ -69,6 +70,13 @@ class ServletScn(Scenario):
                     def preprocess(self, x):
                         if choose(f'prefail{x[1]}', 2) == 1:
                             raise PreErr('pre', x[1])
+                        return x
+                elif scn.validate_all and stage > 0:
+                    def preprocess(self, x):
+                        # a validating gate that accepts every genuine input of this stage; an upstream failure must
+                        # never be handed to it (it is short-circuited to the output)
+                        if not (isinstance(x, tuple) and x and x[0] in ('x', 'R')):
+                            raise TypeError(f'stage {stage} preprocess got a non-input: {type(x).__name__}')
                         return x
 
                 def call(self, x):
